@@ -20,7 +20,7 @@ import (
 type vCrashCfg struct {
 	Rounds   int    // completed Add;Rotate;Flush rounds before the in-flight operation
 	Compact  bool   // one completed compaction (threshold 2) after the rounds
-	InFlight string // "flush" | "flush2" | "compact" | "flushfault" (a flush whose Fault-th write fails: the crash hits its clean-up)
+	InFlight string // "flush" | "flush2" | "compact" | "flushfault" (a flush whose Fault-th write fails: the crash hits its clean-up) | "close" / "closeactive" (the final flush of Close, document in a frozen / in the active memtable) | "reopen" (an Open of the closed directory)
 	Tmpl     string
 	Fault    int
 }
@@ -77,9 +77,21 @@ func vCrashRecord(cfg vCrashCfg) *vCrashHistory {
 	if cfg.Compact {
 		env.do(func() { st.TriggerCompaction(); vrt.Quiesce() })
 	}
-	if cfg.InFlight == "flush" || cfg.InFlight == "flushfault" {
+	if cfg.InFlight == "flush" || cfg.InFlight == "flushfault" || cfg.InFlight == "close" {
 		round()
 		h.inflight = []uint32{id - 1}
+	}
+	if cfg.InFlight == "closeactive" {
+		// the document sits in the ACTIVE memtable when Close starts its final flush
+		d := vStoreDocs[int(id-1)%3]
+		env.do(func() { st.AddWithID(id, vCopyVec(d.Vec), d.Text, vCloneMeta(d.Meta)) })
+		h.ever[id] = int(id-1) % 3
+		id++
+		h.inflight = []uint32{id - 1}
+	}
+	if cfg.InFlight == "reopen" {
+		// the in-flight operation is an OPEN of the closed directory
+		env.do(func() { st.Close() })
 	}
 	if cfg.InFlight == "flush2" {
 		// two frozen memtables flushed by one Flush(): two segments in flight
@@ -100,6 +112,10 @@ func vCrashRecord(cfg vCrashCfg) *vCrashHistory {
 		h.faultHit = ferr != nil
 	case "compact":
 		env.do(func() { st.TriggerCompaction(); vrt.Quiesce() })
+	case "close", "closeactive":
+		env.do(func() { st.Close() })
+	case "reopen":
+		env.open(scfg.config())
 	}
 	h.log = append([]vos.Op(nil), env.fs.Log[start:]...)
 	h.dead = env.dead
@@ -359,8 +375,18 @@ func vCrashCheck1(c *vCtx, cfg vCrashCfg, h *vCrashHistory, p vCrashPoint, prop 
 	// (the trailing close() calls do not change file contents: once only those remain
 	// the segment on disk is complete)
 	for i := p.ops; i < len(h.log); i++ {
-		if h.log[i].Kind != "close" {
-			torn = true
+		op := h.log[i]
+		switch cfg.InFlight {
+		case "close", "closeactive", "reopen":
+			// Close and Open also touch the LOCK file: only operations that still have to put
+			// bytes into a segment file leave the segment incomplete
+			if (op.Kind == "create" || op.Kind == "write") && vSegRe.MatchString(op.Path) {
+				torn = true
+			}
+		default:
+			if op.Kind != "close" {
+				torn = true
+			}
 		}
 	}
 	results := map[int]map[uint32]float64{}
@@ -690,6 +716,15 @@ func init() {
 			for _, tm := range []string{"vtm", "v"} {
 				for n := 1; n <= 16; n++ {
 					sh = append(sh, vCrashShard(vCrashCfg{Rounds: 1, InFlight: "flushfault", Tmpl: tm, Fault: n}))
+				}
+			}
+			// the final flush of Close (frozen / active memtable) and an Open as the in-flight
+			// operation
+			for _, tm := range []string{"vtm", "v"} {
+				for r := 0; r <= 2; r++ {
+					sh = append(sh, vCrashShard(vCrashCfg{Rounds: r, InFlight: "close", Tmpl: tm}))
+					sh = append(sh, vCrashShard(vCrashCfg{Rounds: r, InFlight: "closeactive", Tmpl: tm}))
+					sh = append(sh, vCrashShard(vCrashCfg{Rounds: r, InFlight: "reopen", Tmpl: tm}))
 				}
 			}
 			for _, tm := range []string{"vtm", "v"} {
